@@ -107,6 +107,9 @@ type InputSpec struct {
 	Compiles []CompileStep `json:"compiles"`
 	Debug    bool          `json:"debug"`
 	LexAlone bool          `json:"lex_alone,omitempty"`
+	// Mode >= 0: just before this input's Build the shared builder is switched to tolerant = bit 0, smart = bit 1
+	// (parsers built earlier keep the modes they were built with)
+	Mode int `json:"mode"`
 	// Reconf: successive WithPrettyPrint calls (each a partial option list) on ONE compiler, compiling after
 	// each; options: 0 tabs, 1..9 n-1 spaces, 10 semi on, 11 semi off; -1 in first place = WithSourceMap first
 	Reconf   [][]int `json:"reconf,omitempty"`
@@ -130,7 +133,10 @@ type JobSpec struct {
 	Smart      bool        `json:"smart"`
 	Inputs     []InputSpec `json:"inputs"`
 	Recompiles []Recompile `json:"recompiles"`
-	Shared     [][2]int    `json:"shared,omitempty"` // (input, configuration) compiled in this order by one compiler per configuration
+	// SecondPB: a second, plugin-free parser.Builder over the SAME lexer.Builder builds a parser for input 0
+	// after all the first builder's parsers were built
+	SecondPB bool     `json:"second_pb,omitempty"`
+	Shared   [][2]int `json:"shared,omitempty"` // (input, configuration) compiled in this order by one compiler per configuration
 }
 
 var wordPool = []string{"OPA", "OPB", "OPC", "PRE", "POST", "PRF"}
@@ -248,6 +254,10 @@ func GenJob(seed uint64) *JobSpec {
 		}
 		in.Debug = ch.Bool(2, 3)
 		in.LexAlone = ch.Bool(1, 3)
+		in.Mode = -1
+		if k > 0 && ch.Bool(1, 4) {
+			in.Mode = ch.Choose(4)
+		}
 		if ch.Bool(1, 3) {
 			for i, n := 0, 2+ch.Choose(3); i < n; i++ {
 				var opts []int
@@ -285,6 +295,7 @@ func GenJob(seed uint64) *JobSpec {
 		}
 		j.Inputs = append(j.Inputs, in)
 	}
+	j.SecondPB = ch.Bool(1, 4)
 	if ch.Bool(2, 3) {
 		// few configurations, many trees: the same compiler meets different trees, and the same tree again
 		c1, c2 := ch.Choose(ncfg), ch.Choose(ncfg)
@@ -611,6 +622,10 @@ func RunJob(spec *JobSpec, env Env, full bool) *JobResult {
 			main.put(fmt.Sprintf("in%d/late-name", k), fmt.Sprintf("%d %s", j.types[in.LateName], pan))
 			j.register(main, fmt.Sprintf("in%d/late-op", k), *in.LateOp)
 		}
+		if in.Mode >= 0 {
+			env.Yield(sStep)
+			j.b.pb.WithTolerantMode(in.Mode&1 != 0).WithSmartSemicolon(in.Mode&2 != 0)
+		}
 		env.Yield(sStep)
 		var p *parser.Parser
 		j.curLimit = 2*len(in.Text) + 64
@@ -629,8 +644,26 @@ func RunJob(spec *JobSpec, env Env, full bool) *JobResult {
 			n := 0
 			pan := guard(func() {
 				lx := j.b.lb.Build(in.Text)
+				type kept struct {
+					t    token.Token
+					lit  string
+					cmts string
+				}
+				var keep []kept
+				defer func() {
+					// tokens own their literal and comments: what was handed out must not change when later tokens are read
+					for i, kt := range keep {
+						if kt.t.Literal != kt.lit || strings.Join(kt.t.LeadingComments, "\x00") != kt.cmts {
+							main.inv("token-changed-after-later-tokens-were-read", fmt.Sprintf("input %d token #%d: was %q comments %q, is now %q comments %q", k, i, kt.lit, kt.cmts, kt.t.Literal, strings.Join(kt.t.LeadingComments, "\x00")))
+							break
+						}
+					}
+				}()
 				for n < 2*len(in.Text)+8 {
 					t := lx.NextToken()
+					if len(keep) < 400 {
+						keep = append(keep, kept{t, strings.Clone(t.Literal), strings.Clone(strings.Join(t.LeadingComments, "\x00"))})
+					}
 					lh = mixTok(kernel.Mix(lh, uint64(t.End.Line)<<20^uint64(t.End.Column)), t)
 					for _, c := range t.LeadingComments {
 						lh = kernel.Mix(lh, kernel.Hash64(fmt.Sprint(c)))
@@ -646,6 +679,35 @@ func RunJob(spec *JobSpec, env Env, full bool) *JobResult {
 		ps := &sink{full: full}
 		partSinks[k] = ps
 		waits = append(waits, env.Spawn(fmt.Sprintf("part%d", k), func() { progs[k] = j.part(ps, k, p) }))
+	}
+	if spec.SecondPB {
+		second := func(lb *lexer.Builder, limitOwner *jobRun) string {
+			var out string
+			pan := guard(func() {
+				pb2 := parser.NewBuilder(lb).WithTolerantMode(spec.Tolerant)
+				limitOwner.curLimit = 2*len(spec.Inputs[0].Text) + 64
+				p2 := pb2.Build(spec.Inputs[0].Text)
+				prog, err := p2.ParseProgram()
+				out = fmt.Sprintf("err=%v errors=%s\n%s", err != nil, xutil.ErrorsString(p2.Errors()), xutil.Dump(prog))
+			})
+			return pan + out
+		}
+		env.Yield(sStep)
+		got := second(j.b.lb, j)
+		main.put("z-second-parser-builder/parse", got)
+		// the same on fresh builders configured the same way, none of which has built anything yet
+		t := &jobRun{spec: spec, env: env, cfgs: j.cfgs, twin: true, types: map[string]token.Type{},
+			plogs: map[*parser.Parser]*plog{}, tlogs: map[*lexer.Lexer]*tlog{}, lexOf: map[*parser.Parser]*tlog{}}
+		t.setup(&sink{})
+		for i := range spec.Inputs {
+			if in := &spec.Inputs[i]; in.LateName != "" {
+				guard(func() { t.types[in.LateName] = t.b.lb.RegisterTokenType(in.LateName) })
+				t.register(&sink{}, "late", *in.LateOp)
+			}
+		}
+		if want := second(t.b.lb, t); want != got {
+			main.inv("second-parser-builder-on-a-shared-lexer-builder-differs-from-fresh-builders", fmt.Sprintf("shared: %s\nfresh: %s", clipAroundJ(got, want), clipAroundJ(want, got)))
+		}
 	}
 	env.Yield(sJoin)
 	for _, w := range waits {
@@ -1067,6 +1129,9 @@ func (j *jobRun) twinParse(k int) (parseText, obs string) {
 		if in := &j.spec.Inputs[i]; in.LateName != "" {
 			guard(func() { t.types[in.LateName] = t.b.lb.RegisterTokenType(in.LateName) })
 			t.register(scratch, "late", *in.LateOp)
+		}
+		if m := j.spec.Inputs[i].Mode; m >= 0 {
+			t.b.pb.WithTolerantMode(m&1 != 0).WithSmartSemicolon(m&2 != 0)
 		}
 	}
 	text := j.spec.Inputs[k].Text
